@@ -171,6 +171,29 @@ def r3_forward_pc(ctx):
     u = ctx.body(EX + "update_pc_state", r)
     pushes = [sigv(e) for bi, e in q.call_exprs(u, "Vec::push")]
     r.check(len(pushes) == 2, "loopback/state-kept", "loop state is pushed back", "pushes: %s" % pushes)
+    # the unwinding loop `while let Some(state) = loop_state.pop()` is left only when the stack is empty or after a state has been pushed back:
+    # leaving it with a popped state dropped means the enclosing loops are not examined in this step (their iteration is lost)
+    for (h, blocks, latches) in u.loops():
+        t = u.term(h)
+        if not (t and t["k"] == "call" and mir.callee_name(t).endswith("Vec::<T, A>::pop") or (t and t["k"] == "call" and mir.callee_name(t).split("::")[-1] == "pop")):
+            continue
+        pb = {bi for bi, e in q.call_exprs(u, "Vec::push")}
+        entry = q.loop_entry(u, h, blocks)
+        # from the point where a state has been popped, follow every path (inside and after the loop) that neither pushes a state back nor returns
+        # to the header for the next pop: reaching the function's return on such a path drops the popped state with the outer loops unexamined
+        seen, st = {entry}, [entry]
+        while st:
+            x = st.pop()
+            if x in pb:
+                continue
+            for s_ in u.succs(x):
+                if s_ not in seen and s_ != h:
+                    seen.add(s_)
+                    st.append(s_)
+        dropped = [(x, x) for x in u.return_blocks() if x in seen]
+        r.check(not dropped, "loopback/no-drop-exit", "the unwinding loop is left only through exhaustion or after a push-back",
+                "update_pc_state can leave its unwinding loop with a popped loop state dropped (from bb%s): the enclosing loops are not examined, their pending iterations are lost"
+                % sorted({x for x, _ in dropped}), u.where(h))
     # run_to_end: the only loop; bounded by pc < len
     rt = ctx.body(EX + "run_to_end", r)
     WANT = "Lt($1.pc, Vec::len($1.instrs))"
